@@ -5,6 +5,8 @@ V = os.path.dirname(os.path.dirname(os.path.abspath(__file__)))
 ids = [json.loads(l)['id'] for l in open(os.path.join(V, 'properties.jsonl'))]
 TECH = 'bounded symbolic execution of the real code (clang IR -> ll2c -> CBMC 6.11 / SAT), counterexamples replayed on a g++ ASan build'
 CLAIMED = {
+    'C09': ('3.C09', 'MockNamedValue::equals is run symbolically for all 36 ordered integer type pairs with both 64-bit values free (oracle: sign-aware mathematical equality, both directions), for bool/pointer/function-pointer/string/buffer/double values and all cross-type pairs; all 36 stored-type x getter combinations are checked to return exactly the stored integer or fail the test.',
+            'strings/buffers <= 3 bytes; failure text stubbed; CBMC float model for the double case'),
     'C03': ('3.C03', 'Every check macro is expanded as in a user test (15 CHECK_EQUAL operand types, 4x6 relational compares, the LONGS/BYTES/POINTERS/ENUMS/BITS families, doubles, 6 string checks, memory blocks, 13 C entry points) and run symbolically: both 64-bit operand words, all double bit patterns and tolerances, strings/blocks up to 3 bytes with symbolic NULL-ness; the solver decides failure-recorded <=> predicate false, exactly one count, exit exactly on failure.',
             'failure message construction stubbed empty (C14 owns it); test exit through a harness hook; CBMC IEEE-754 float model'),
     'C13': ('3.C13', 'Every SimpleString operation and formatter is executed symbolically from the current sources against a textbook oracle, with heap red zones and an allocator ledger; the SAT solver decides all byte strings up to the stated length (1-3 bytes, full byte range) and all 64-bit positions. Bounded: longer strings are outside the claim.',
